@@ -334,12 +334,19 @@ func (m *Machine) runDefers(fr *frame) {
 	}
 }
 
-func (m *Machine) runFrame(fr *frame) { m.runFrameFrom(fr, fr.fn.Blocks[0]) }
+func (m *Machine) runFrame(fr *frame) { m.runFrameFromPrev(fr, fr.fn.Blocks[0], nil) }
 
-func (m *Machine) runFrameFrom(fr *frame, block *ssa.BasicBlock) {
-	var prev *ssa.BasicBlock
+func (m *Machine) runFrameFrom(fr *frame, block *ssa.BasicBlock) { m.runFrameFromPrev(fr, block, nil) }
+
+func (m *Machine) runFrameFromPrev(fr *frame, block *ssa.BasicBlock, prev *ssa.BasicBlock) {
 	for {
 		var next *ssa.BasicBlock
+		if m.merge != nil && prev != nil && m.merge.inv != nil && m.merge.inv.fn == fr.fn && isLoopHeader(block) {
+			if v, done := m.mergeAtLoopHeader(fr, block, prev); done {
+				fr.result = v
+				return
+			}
+		}
 	instrs:
 		for _, ins := range block.Instrs {
 			m.steps++
